@@ -53,6 +53,11 @@ func genCase(t *rapid.T) arith.Case {
 		if c.Op == "exp" {
 			c.X.Exp = int32(rapid.IntRange(-25, 2-len(c.X.Coeff)).Draw(t, "hpee"))
 			c.X.Neg = rapid.Bool().Draw(t, "hpn")
+			if gen.Pick(t, 3, "hptiny") == 0 {
+				// arguments down to 10^-(P+5): below 10^-308 they leave the float64 range, which
+				// the term-count estimate of the series must not depend on
+				c.X.Exp = -int32(rapid.IntRange(30, int(c.Ctx.P)+5).Draw(t, "hptinye"))
+			}
 		}
 		return c
 	}
@@ -105,7 +110,19 @@ func genCase(t *rapid.T) arith.Case {
 			c.X.Exp = -int32(len(c.X.Coeff) - len(fmt.Sprint(v)))
 		}
 	case "ln", "log10":
-		if gen.Pick(t, 300, "tinyeps") == 1 {
+		if gen.Pick(t, 60, "edgehp") == 1 {
+			// the switch-over points of Ln (|x-1| = 0.1 and 0.5) again, at precisions of a hundred
+			// digits and more, where a threshold or guard-digit rule keyed on the precision would
+			// change sides
+			c.Ctx.P = uint32(rapid.IntRange(90, 140).Draw(t, "ehp"))
+			c.Ctx.Emax, c.Ctx.Emin = 1000, -1000
+			lead := []string{"110", "1101", "1105", "1099", "150", "1501", "1499", "90", "899", "50", "499", "501"}[gen.Pick(t, 12, "ehl")]
+			sd := lead + gen.DigitsN(t, int(c.Ctx.P)+6-len(lead), 9, "ehd")
+			c.X = core.Dec{Coeff: sd, Exp: int32(-(len(sd) - 1))}
+			if sd[0] != '1' {
+				c.X.Exp = int32(-len(sd))
+			}
+		} else if gen.Pick(t, 300, "tinyeps") == 1 {
 			// 1 +/- 10^-k for k in the thousands and tens of thousands: the result is about
 			// +/-10^-k, far inside the range, but powers of the tiny difference are not
 			k := []int{1000, 5000, 20000, 33321, 33322, 33400, 45000}[gen.Pick(t, 7, "tek")] + rapid.IntRange(0, 3).Draw(t, "tekd")
@@ -149,7 +166,7 @@ func genCase(t *rapid.T) arith.Case {
 			if c.Ctx.P < 20 {
 				c.Ctx.P = 20
 			}
-		} else if gen.Pick(t, 30, "bigpow") == 1 {
+		} else if gen.Pick(t, 8, "bigpow") == 1 {
 			// a base within 10^-k of one raised to an integer of about k digits: the result stays
 			// moderate while the integer power runs through dozens of squarings
 			k := rapid.IntRange(3, 25).Draw(t, "bpk") // exponents up to 25 digits (beyond 64 bits)
@@ -163,7 +180,7 @@ func genCase(t *rapid.T) arith.Case {
 			c.X = core.Dec{Coeff: one.String(), Exp: int32(-(k + 2))}
 			y := gen.DigitsN(t, k, 9, "bpy") // random digits
 			c.Y = core.Dec{Coeff: y, Neg: gen.Pick(t, 4, "bpneg") == 0}
-			if gen.Pick(t, 3, "bpfold") == 0 {
+			if gen.Pick(t, 2, "bpfold") == 0 {
 				// the same magnitude written with its zeros folded into the exponent: 2E+11
 				lead := rapid.IntRange(1, 2).Draw(t, "bplead")
 				if lead < len(y) {
